@@ -761,6 +761,39 @@ def st_bsearch(ctx, n, label="bsearch"):
     return out
 
 
+def st_key_families():
+    """qualifier keys with a LONG common prefix (7 ... 25 bytes: around one, two and three machine words) — one a prefix
+    of the other, or differing only behind it — inserted, looked up, overwritten and removed in both orders and in
+    another letter case (a comparison that looks at a fixed-size chunk first must still tell them apart)"""
+    out = []
+    for L in (7, 8, 9, 15, 16, 17, 23, 24, 25):
+        P = ("platform_version_of_the_runtime_x")[:L]
+        fam = [P, P + "a", P + "_version", P + "12345678", P + "123456789", P + "b"]
+        for x in fam:
+            for y in fam:
+                if x == y:
+                    continue
+                out.append(case("quals ins:%s:%s;ins:%s:%s;get:%s;get:%s;has:%s;ent:%s:get;iter;rm:%s;get:%s;get:%s;len" % (
+                    hx(x), hx("1"), hx(y), hx("2"), hx(x), hx(y), hx(x.upper()), hx(y.upper()), hx(x), hx(x), hx(y)), "key-families"))
+        out.append(case("quals tfi:" + ":".join("%s:%s" % (hx(k), hx("v")) for k in fam) + ";iter;it:i:nbl", "key-families"))
+        out.append(case("quals tfi:" + ":".join("%s:%s" % (hx(k), hx("v")) for k in reversed(fam)) + ";iter;riter", "key-families"))
+    return out
+
+
+def st_key_families_parse(shapes):
+    out = []
+    for L in (7, 8, 9, 15, 16, 17, 23, 24, 25):
+        P = ("platform_version_of_the_runtime_x")[:L]
+        fam = [P, P + "a", P + "_version", P + "12345678", P + "b"]
+        for x in fam:
+            for y in fam:
+                if x != y:
+                    for sh in shapes:
+                        s_ = "pkg:%s/n?%s=1&%s=2&checksum=sha1:00" % ("cargo" if sh == "P" else "t", x, y.upper())
+                        out.append(case("parse %s %s" % (sh, hx(s_)), "key-families", s=s_, shape=sh))
+    return out
+
+
 def st_iter_random(ctx, n, label="quals-it"):
     """random collections (inserts and removals in any letter case), then random call sequences on iterators
     (a stream of its own: the labelled `quals` stream stays as the full replays validated it)"""
@@ -1132,6 +1165,24 @@ def cksum_texts(ctx):
             "md5:1B2M2Y8AsgTpgAmY7PhCfg==", "sha256-47DEQpj8HBSa+/TImW+5JCeuQeRkm5NMpJWZG3hSuFU=", "sha1:3I42H3S6NNFQ2MSVX7XZKYAYSCX5QBYJ", "sha256:00,sha1:2jmj7l5rSw0yVb/vlWAYkK/YBwk="]
     # algorithm names that only differ in how their numbers are written (a "natural" order would tie or reorder them)
     out += ["sha01-1:aa,sha1-01:bb", "sha1-01:bb,sha01-1:aa", "a1:00,a01:11,a001:22", "sha2:00,sha10:11", "sha10:11,sha2:00", "v1.10:00,v1.9:11,v1.09:22"] * 4
+    # families of algorithm names with a LONG common prefix (one machine word, two, three: anything that compares or sorts
+    # by a fixed-size chunk of the name first), in every order, alone and next to names that sort before / after the
+    # family; each text several times (the typed value is a hash map: its iteration order changes from value to value)
+    fams = [["sha512-224", "sha512-256"], ["blake2b-256", "blake2b-384", "blake2b-512"], ["ripemd-128", "ripemd-160"],
+            ["sha3-256-tree", "sha3-256-flat"]]
+    for L_ in (7, 8, 9, 15, 16, 17, 24, 32):
+        P_ = ("abcdefghijklmnopqrstuvwxyz0123456789" * 2)[:L_]
+        fams.append([P_ + "a", P_ + "b"])
+        fams.append([P_, P_ + "0", P_ + "-1"])
+    for fam in fams:
+        for perm in itertools.permutations(fam):
+            ent = ["%s:%02x" % (a, 17 * i + 1) for i, a in enumerate(perm)]
+            for extra in ([], ["0a:aa"], ["zz:bb"], ["0a:aa", "zz:bb"]):
+                for pos in range(len(ent) + 1):
+                    t_ = ent[:pos] + extra + ent[pos:]
+                    out += [",".join(t_)] * (3 if len(fam) == 2 else 1)
+                    if not extra:
+                        break
     import srcdict
     for t in srcdict.source_tokens():
         out += [t + ":00ff", "sha1:" + t, "sha1:00," + t + ":ab", t + "=00ff", "sha1:ab" + t, t + "sha1:ab"]
